@@ -353,6 +353,37 @@ func runDKGOwnership(t *testing.T, rc *RunCtx) {
 	defer s.Close()
 	c := NewCluster(t, rc, s, ClusterCfg{IDs: ids, Order: permute(rc, ids)})
 	defer c.Close()
+	if n >= 3 && ch.Pick(3, 0) == 2 {
+		// A configured peer prepares a generation whose participant list gives, for one identifier, the address
+		// of another instance (its own, or a stale entry).  Whatever the victim then sends, a share computed for
+		// identifier X goes to the instance that is X, or nowhere.
+		co := &coordinator{}
+		liar, victim := c.Nodes[ch.Pick(n, 0)], c.Nodes[ch.Pick(n, 0)]
+		eps := co.endpoints(c.Nodes)
+		x := ch.Pick(n, 0)
+		y := ch.Pick(n, 0)
+		if c.Nodes[x] != victim && c.Nodes[y] != victim && x != y {
+			eps[x].Name, eps[x].Port = c.Nodes[y].Name, c.Nodes[y].Port
+		}
+		acct := "Wallet 3/stale"
+		for _, nd := range c.Nodes {
+			_ = nd.guard("prepare", func() error {
+				_, err := nd.Recv.Prepare(nd.PeerCtx(liar.Name), roundTrip(&pb.PrepareRequest{Account: acct, Passphrase: []byte("pass"), Threshold: uint32(th), Participants: eps}, &pb.PrepareRequest{}))
+				return err
+			})
+		}
+		err := co.execute(victim, liar.Name, acct)
+		rc.Logf("participant list with id %d at the address of id %d: execute at %s -> %v", c.Nodes[x].ID, c.Nodes[y].ID, victim.Name, err)
+		rc.Stats.Inc("misdirected_participant_lists", 1)
+		rc.Stats.Seen("cases", fmt.Sprintf("misdirected/n%d/t%d/%d>%d", n, th, x, y))
+		c.CheckShareOwnership(0)
+		for _, nd := range c.Nodes {
+			_ = co.abort(nd, liar.Name, acct)
+		}
+		if len(rc.Viol) > 0 {
+			return
+		}
+	}
 	out := c.spawnGenerate(c.Nodes[ch.Pick(n, 0)], "client1", "Wallet 3/own", uint32(th), uint32(n))
 	if o := s.Run(); o != "done" || !out.Done {
 		rc.Truncated = o == "truncated"
